@@ -31,8 +31,10 @@ def run(ctx):
         configs = [
             {"cfg": "Span_thorough.cfg", "workers": 10, "replay": False,
              "actions": ACTIONS + TASKS + LAZY + ["Incoming"]},
+            {"cfg": "Span_thorough2.cfg", "workers": 10, "replay": False, "actions": ACTIONS + ["Incoming"]},
             {"cfg": "Span_thorough_r1.cfg", "workers": 6, "actions": ACTIONS + TASKS + LAZY + ["Incoming"]},
-            {"cfg": "Span_thorough_r2.cfg", "workers": 6, "actions": ACTIONS + TASKS + LAZY + ["Incoming"]},
+            {"cfg": "Span_thorough_r2.cfg", "workers": 6, "actions": ACTIONS + ["Incoming"]},
+            {"cfg": "Span_thorough_r3.cfg", "workers": 6, "actions": ACTIONS + TASKS + LAZY + ["Incoming"]},
             {"cfg": "Span_thorough_sim.cfg", "workers": 4, "simulate": (20000, 18)},
         ]
     span_common.run_configs(ctx, "MCSpan", "c04_span", configs, ACTIONS, "C04")
